@@ -164,6 +164,42 @@ def pad_trim_rule(ctx, p, K):
            message="padding for an odd kernel K = 2h + 1 followed by trimming for the same kernel must select exactly the original cells (and crop the mask by the same offset)")
 
 
+def _sole_producer(ctx, rule, m, cs, rets, kwname, what):
+    """the value returned under keyword `kwname` is produced by the single util call cs[0] on EVERY path (values and mask are placed by one and the same window arithmetic)"""
+    ok = len(cs) == 1 and len(rets) == 1 and isinstance(rets[0].value, ast.Call)
+    det = "util call or return not unique"
+    if ok:
+        chain = []
+
+        def flows(e, depth=0) -> bool:
+            """e is the util call, or a value-preserving wrapper / single-assignment local around it, never chosen by a branch"""
+            if e is cs[0]:
+                return not wire.enclosing_branches(m, cs[0])
+            if depth > 6:
+                return False
+            if isinstance(e, ast.Name):
+                asg = [n for n in m.body_nodes() if isinstance(n, (ast.Assign, ast.AugAssign, ast.For)) and any(isinstance(x, ast.Name) and x.id == e.id and isinstance(x.ctx, ast.Store)
+                                                                                                               for t in (n.targets if isinstance(n, ast.Assign) else [n.target]) for x in ast.walk(t))]
+                chain.append(f"{e.id}:{len(asg)}")
+                return len(asg) == 1 and isinstance(asg[0], ast.Assign) and not wire.enclosing_branches(m, asg[0]) and flows(asg[0].value, depth + 1)
+            if isinstance(e, ast.Call):
+                # the data argument of a converter / cast:  f(array_2d=X, ...), X.astype(...), np.array(X)
+                cands = []
+                if isinstance(e.func, ast.Attribute) and e.func.attr in ("astype", "copy"):
+                    cands.append(e.func.value)
+                cands += [k.value for k in e.keywords if k.arg in ("array_2d", "values", "mask", "array")]
+                if norm_text(e.func) in ("np.array", "numpy.array", "np.asarray") and e.args:
+                    cands.append(e.args[0])
+                return any(flows(x, depth + 1) for x in cands)
+            return False
+        v = wire.kw(rets[0].value).get(kwname)
+        ok = v is not None and flows(v)
+        det = f"{kwname} <- {' <- '.join(chain) or 'direct'}"
+    ctx.ob(rule, m.key + ":sole-producer", ok, where=m, node=cs[0] if cs else m.node, construct=det,
+           message=f"{what} must come from the one resize util on every path: a second way of placing the data (np.pad, slicing) uses its own offsets, which differ from the util's floor(new/2) - floor(old/2) for some parities, "
+                   f"and the values detach from the mask")
+
+
 def class_rule(ctx, p):
     rule = "C14.geometry"
     c = p.cls("autoarray.structures.arrays.uniform_2d:AbstractArray2D")
@@ -176,6 +212,7 @@ def class_rule(ctx, p):
     rets = wire.returns_of(m)
     kwv = {k: norm_text(v) for k, v in wire.kw(rets[0].value).items()} if rets and isinstance(rets[0].value, ast.Call) else {}
     ctx.ob(rule, m.key, ok and kwv.get("mask") == "resized_mask", where=m, node=m.node, construct=f"{got}; mask {txt.get('resized_mask')}", message="values and mask must be resized to the same new shape; the result lives on the resized parent mask (which carries pixel scales and origin)")
+    _sole_producer(ctx, rule, m, cs, rets, "values", "the values of the resized array")
     mm = p.cls("autoarray.mask.mask_2d:Mask2D").lookup("resized_from")
     cs = wire.calls_to(p, mm, callee.key)
     got = {k: norm_text(wire.strip_np_array(v)) for k, v in wire.kw(cs[0], callee).items()} if len(cs) == 1 else {}
@@ -183,6 +220,7 @@ def class_rule(ctx, p):
     kwv = {k: norm_text(v) for k, v in wire.kw(rets[0].value).items()} if rets and isinstance(rets[0].value, ast.Call) else {}
     ctx.ob(rule, mm.key, got == {"array_2d": "self", "resized_shape": "new_shape", "pad_value": "pad_value"} and kwv == {"mask": "resized_mask", "pixel_scales": "self.pixel_scales", "origin": "self.origin"},
            where=mm, node=rets[0] if rets else mm.node, construct=f"{got} -> {kwv}", message="the resized mask must keep the parent's pixel scales AND origin (otherwise surviving pixels lose their coordinates)")
+    _sole_producer(ctx, rule, mm, cs, rets, "mask", "the resized mask")
     # automatic padding when masking: data and noise map padded identically
     init = p.cls("autoarray.dataset.imaging.dataset:Imaging").methods.get("__init__")
     if init is None:
@@ -266,6 +304,8 @@ CONTROLS = [
     Control("extraction clamps its ranges (seed C14/2 shape)", _A, in_func("extracted_array_2d_from", "    for y_resized, y in enumerate(range(y0, y1)):", "    for y_resized, y in enumerate(range(max(y0, 0), y1)):"), "C14.zoom"),
     Control("trim cuts one cell too many on x", _U, in_func("AbstractArray2D.trimmed_after_convolution_from", "psf_cut_x = int(np.ceil(kernel_shape[1] / 2)) - 1", "psf_cut_x = int(np.ceil(kernel_shape[1] / 2))"), "C14.pad-trim"),
     Control("padding uses the y kernel extent for x", _U, in_func("AbstractArray2D.padded_before_convolution_from", "self.shape_native[1] + (kernel_shape[1] - 1),", "self.shape_native[1] + (kernel_shape[0] - 1),"), "C14.pad-trim"),
+    Control("pure enlargements padded by np.pad with pad//2 (seed C14/4)", _U, in_func("AbstractArray2D.resized_from", "        resized_array_2d = array_2d_util.resized_array_2d_from(\n            array_2d=np.array(self.native), resized_shape=new_shape\n        )",
+            "        if new_shape[0] >= self.shape_native[0] and new_shape[1] >= self.shape_native[1]:\n            py, px = new_shape[0] - self.shape_native[0], new_shape[1] - self.shape_native[1]\n            resized_array_2d = np.pad(np.array(self.native), ((py // 2, py - py // 2), (px // 2, px - px // 2)))\n        else:\n            resized_array_2d = array_2d_util.resized_array_2d_from(\n                array_2d=np.array(self.native), resized_shape=new_shape\n            )"), "C14.geometry"),
     Control("noise map padded with a different mask value", "autoarray/dataset/imaging/dataset.py", in_func("Imaging.__init__", "                    noise_map = noise_map.padded_before_convolution_from(\n                        kernel_shape=psf.shape_native, mask_pad_value=1", "                    noise_map = noise_map.padded_before_convolution_from(\n                        kernel_shape=psf.shape_native, mask_pad_value=0"), "C14.geometry"),
     Control("zoom window buffer only on the upper side", _U, in_func("AbstractArray2D.zoomed_around_mask", "y0=self.mask.zoom_region[0] - buffer,", "y0=self.mask.zoom_region[0],"), "C14.zoom"),
     Control("twin: bound written as <= N - 1", _A, in_func("resized_array_2d_from", "if y >= 0 and y < array_2d.shape[0] and x >= 0 and x < array_2d.shape[1]:", "if y >= 0 and y <= array_2d.shape[0] - 1 and x >= 0 and x <= array_2d.shape[1] - 1:"), None, twin=True),
